@@ -22,6 +22,8 @@ KidsFaulty == { Kid(-1, -1, FALSE, FALSE, FALSE), Kid(1, -1, FALSE, FALSE, FALSE
 OpsAll == {"start", "stop", "stop_with_signal", "restart", "restart_with_signal",
            "try_restart", "try_restart_with_signal", "signal", "delete", "delete_now",
            "to_wait", "run", "run_async", "unset_hook"}
+\* with the controls that only Job::control() sends on their own
+OpsRaw == OpsAll \cup {"raw_continue", "raw_delete", "raw_next_ending"}
 OpsGraceful == {"start", "stop_with_signal", "restart_with_signal",
                 "try_restart_with_signal", "to_wait", "run", "delete_now", "try_restart"}
 OpsOrder == {"start", "run", "to_wait", "delete_now", "stop_with_signal", "delete"}
